@@ -15,7 +15,7 @@ META = dict(
 
 def tasks(tier):
     from vf.core import Task
-    return [Task('props.wire:run', name='C01/wire.c01_phi_1D_snm', fname='c01_phi_1D_snm', timeout=300), Task('props.wire:run', name='C01/wire.c01_phi_1D_dispatch', fname='c01_phi_1D_dispatch', timeout=300), Task('props.wire:run', name='C01/wire.c01_phi_1D_genic', fname='c01_phi_1D_genic', timeout=300),
+    return [Task('props.wire:run', name='C01/wire.c01_phi_1D_snm', fname='c01_phi_1D_snm', timeout=300), Task('props.wire:run', name='C01/wire.c01_phi_1D_dispatch', fname='c01_phi_1D_dispatch', timeout=300), Task('props.wire:run', name='C01/wire.c01_phi_1D_genic', fname='c01_phi_1D_genic', timeout=300), Task('props.wire:run', name='C01/wire.c01_phi_1D_general_h', fname='c01_phi_1D_general_h', timeout=300),
             Task('props.C01:t_kernel_1d', name='C01/kernel.implicit_1Dx', timeout=900),
             Task('props.C01:t_driver_1d', name='C01/wire.one_pop.step', timeout=600),
             Task('props.C01:t_two_steps_1d', name='C01/wire.one_pop.two-steps', timeout=600),
